@@ -1003,3 +1003,75 @@ def r12(R):
                 'first transaction (AttributeError)' % ', '.join(missing),
                 key='record class lacks what tpc_begin reads')
     R.require(n >= 2, 'transaction record classes not found')
+
+
+# ------------------------------------------------------------------ C17.R13
+HANDS_OVER = ('restore', 'restoreBlob', 'store', 'storeBlob')
+
+
+@rule('C17.R13', 'every record a copy loop reads from the source transaction '
+      'is handed to the destination: no iteration of the record loop '
+      'completes without a restore/store call', props=['C01'],
+      min_instances=3)
+def r13(R):
+    n = 0
+    for q in COPIERS:
+        f = R.prog.func(q)
+        g, b, F = R.cfg(f, None, max_depth=0)
+        for nid in sorted(g.reachable()):
+            head = g.nodes[nid]
+            if head.kind != 'for':
+                continue
+            loop = head.ast
+            if not any(isinstance(c, ast.Call) and isinstance(
+                    c.func, ast.Attribute) and c.func.attr in HANDS_OVER
+                    for s_ in loop.body for c in ast.walk(s_)):
+                continue
+            # only the innermost loop around the hand-over (the record loop)
+            if any(isinstance(l, ast.For) and l is not loop and any(
+                    isinstance(c, ast.Call) and isinstance(
+                        c.func, ast.Attribute) and c.func.attr in HANDS_OVER
+                    for c in ast.walk(l))
+                    for s_ in loop.body for l in ast.walk(s_)):
+                continue
+            n += 1
+            R.instance('%s: for %s in %s' % (
+                f.short, ast.unparse(loop.target), ast.unparse(loop.iter)))
+
+            def edge(node, st, lab, tgt, head=head, F=F):
+                if node.id == head.id:
+                    if st != 'start' or lab != 'T':
+                        return PRUNE
+                    return False
+                if lab in ('e', 'eb'):
+                    return PRUNE          # the copy of the transaction fails
+                if node.kind == 'break':
+                    return PRUNE
+                for op in F.ops(node):
+                    if op.kind == 'call' and op.path and \
+                            op.path[-1] in HANDS_OVER:
+                        return True
+                return st
+
+            def at(node, st, head=head, f=f):
+                if node.id == head.id and st != 'start':
+                    if st is False:
+                        return Violation(
+                            '%s goes on to the next record of the source '
+                            'transaction without having handed this one to '
+                            'the destination: the copy silently lacks the '
+                            'record (an un-creation record skipped leaves '
+                            'the object alive in the copy)' % f.short)
+                    return PRUNE
+                if node.id in (g.exit_return, g.exit_raise):
+                    return PRUNE
+                return st
+
+            vs, stats = explore(g, 'start', at=at, edge=edge, start=head.id)
+            R.count(stats)
+            for v in vs:
+                # report the statement that skipped: last node of the path
+                # before the loop head
+                last = g.nodes[v.path[-2]] if len(v.path) > 1 else v.node
+                R.violation(last, v.message, g, v.path)
+    R.require(n >= 3, 'only %d record loops found' % n)
